@@ -136,7 +136,9 @@ type cellFixture struct {
 	reasons                    map[string]int
 }
 
-func unitsOf(n int64) *big.Int { return new(big.Int).Mul(big.NewInt(n), big.NewInt(constants.Decimals)) }
+func unitsOf(n int64) *big.Int {
+	return new(big.Int).Mul(big.NewInt(n), big.NewInt(constants.Decimals))
+}
 
 func (f *cellFixture) send(key *wallet.KeyPair, to types.Address, tok types.ZenonTokenStandard, amt *big.Int, data []byte) *nom.AccountBlock {
 	b, err := f.n.Submit(&nom.AccountBlock{BlockType: nom.BlockTypeUserSend, Address: key.Address, ToAddress: to, TokenStandard: tok, Amount: amt, Data: data}, key)
